@@ -9,10 +9,30 @@ CHECKS = {
          "deterministic simulation: seeded driver-behaviour scripts (partial/zero/EINTR/EAGAIN/hard) on scripted source and sink stubs, stream-cursor reference model",
          "Seeded exploration of endpoint API calls on one shared stream with per-call fault scripts on both drivers; every call is checked against a two-cursor stream model (exact count, order, no loss/duplication, error provenance, prefix rule, step budget). Sampling, not proof; the property's exhaustive script enumeration is not claimed.",
          "Trusts the scripted driver stubs and the stream model in sim/epsim.cpp; getbuffer extension not simulated (no implementer in the repo).", "4.1"),
+ "C10": ("pssim", "exploration",
+         "deterministic simulation: persistent storage over a simulated medium (access log, region guard, bit rot), image + independent checksum reference model",
+         "Seeded exploration of configurations (data size, placement, three checksum algorithms, auxiliary buffer sizes 0..N+1) x operation histories (store, partial store incl. overflow pairs, fetch, validate, reset, restart, bit rot) on a fault-free medium; every medium access is logged and region-checked, every result compared with an image model and independently computed checksums; step budget catches non-terminating chunk loops.",
+         "Trusts the medium stub and the independent checksum implementations in sim/pssim.cpp.", "4.6"),
+ "C11": ("pssim", "fault_enumeration",
+         "deterministic simulation with fault enumeration: for each seeded (configuration, history, operation) every crash point, every tear offset of every write and every single failing/short medium call is injected; only the medium survives a crash",
+         "Per generated case the fault dimension is enumerated completely (all write-call prefixes, octet-granular tearing of each write, each call index x {fail, short by each amount}); after each crash a fresh instance validates and the oracle demands 'validates iff checksum on the medium matches data on the medium' and old-or-new at write boundaries; failing/short calls must surface as I/O error. Cases are sampled.",
+         "Trusts the medium stub (longjmp out of the library models power loss; the library holds no other resource) and the independent checksums.", "4.6"),
+ "C12": ("slipsim", "exploration",
+         "deterministic simulation: SLIP encoder/decoder on a scripted serial line with garbage prefixes, damaged frames, partial sink transfers and driver errors at chosen octet positions; suffix-rule resynchronisation oracle, reference decoder in classic mode",
+         "Seeded exploration of payloads (5-symbol alphabet and full alphabet), frame sequences, corrupted prefixes and line faults in both modes with octet- and chunk-style drivers; transparency, delimiter form, length bound, concatenation, resynchronisation (suffix rule), EILSEQ, no-expansion and error pass-through are checked per decode call.",
+         "Trusts the line/sink stubs and the reference state machine in sim/slipsim.cpp; zero-return/EINTR drivers belong to C17.", "4.4"),
+ "C13": ("lenpsim", "exploration",
+         "deterministic simulation: all 8 encoder and 3 decoder entry points over fragmenting source stubs and scripted/failing sink stubs, reference prefix encoder, exact-size guarded destinations",
+         "Seeded exploration of prefix kinds x lengths (incl. varint and kind-maximum boundaries) x buffer states (offset>0, used<size) x chunk lists (empty chunks, active>0) x destination capacities x source fragmentation scripts x sink behaviour/error scripts; emitted octets, totals, buffer advancement, refusal before emission, append semantics, -ENOMEM without writes and multi-frame streams are checked.",
+         "Trusts the reference prefix encoder and stubs in sim/lenpsim.cpp; lengths > 65536 only on the refusal path.", "4.5"),
  "C18": ("bbsim", "exploration",
          "deterministic simulation: seeded interleaving of producer/consumer/housekeeper tasks on one buffer, list reference model + FIFO history oracle",
          "Weak claim: the byte buffer has no seam or fault; the simulator contributes seeded call interleavings of three tasks, a step-by-step list model and the FIFO/conservation history check on exact-size ASan blocks. Reports reached (size,used,offset) states.",
          "Trusts the list model in sim/bbsim.cpp. The property's explicit-state enumeration is not claimed.", "4.2"),
+ "C19": ("rbsim", "exploration",
+         "deterministic simulation: seeded interleaving of producer/consumer/admin/observer tasks on one ring (octet_ring and macro instantiations for four more element types), deque reference model + exactly-once FIFO history oracle, both iterators run to completion",
+         "Weak claim: the ring buffer has no seam or fault; the simulator contributes seeded call interleavings, a deque model with capacity/override semantics, iterator checks after every mutation and the exactly-once in-order history check. Reports reached (capacity, head, tail, override, size) states.",
+         "Trusts the deque model in sim/rbsim.cpp. The property's explicit-state model checking is not claimed.", "4.3"),
 }
 
 NA = {
@@ -21,7 +41,7 @@ NA = {
  "C16": "pure function of (state, octets); an independent bitwise CRC is only used as oracle inside other harnesses (DESIGN.md 4.9)",
  "C20": "pure function of the input text; allocation failure ends in _Exit(1) by design, so there is no fault path to inject and no stream/state/peer (DESIGN.md 4.9)",
 }
-PENDING = {k: "harness not built yet in this round (planned per DESIGN.md section 4); no claim is made until its check exists" for k in ["C01","C02","C03","C04","C05","C06","C07","C08","C09","C10","C11","C12","C13","C19"]}  # id -> reason, for properties whose harness is not built yet
+PENDING = {k: "harness not built yet in this round (planned per DESIGN.md section 4); no claim is made until its check exists" for k in ["C01","C02","C03","C04","C05","C06","C07","C08","C09"]}  # id -> reason, for properties whose harness is not built yet
 
 def main():
     checks = []
